@@ -1,6 +1,8 @@
 """C03 -- see DESIGN.md section 4"""
 from vf import family
+from vf.family import T
 from vf.props import flow_common as fc
+from vf.props import sk_common as sk
 
 ID = 'C03'
 FUNCTIONS = ['yalafi.tex2txt.tex2txt', 'yalafi.parser.Parser.*', 'yalafi.mathparser.MathParser.*',
@@ -17,11 +19,54 @@ ASSUMPTIONS = ['event annotations of vf/docs.py (written from the property texts
                'scanner re-basing + stderr stub as for C01']
 
 
+A, B = T('Alpha'), T('Beta')
+
+
+def sketches(tier):
+    """hidden slots with symbolic content (anything that the slot syntax allows): nothing of it
+    may show; text slots with a symbolic word: it must show exactly once, in place"""
+    Lh = 2 if tier == 'quick' else 3
+    S = [
+        ('label_key', ['cat', A, ['label', 'k@H@'], ' ', B], 'HIDDEN', Lh, None),
+        ('index_key', ['cat', A, ' ', ['index', '@H@z'], B], 'HIDDEN', Lh, None),
+        ('ref_key', ['cat', A, ' ', ['ref', '@H@'], ' ', B], 'HIDDEN', Lh, None),
+        ('cite_key', ['cat', A, ' ', ['cite', 'k@H@', T('p. 3')], ' ', B], 'HIDDEN', Lh, None),
+        ('ltskip', ['cat', A, ' ', ['ltskip', T('@H@')], B], 'HIDDEN', Lh, None),
+        ('ltalter_hidden', ['cat', A, ' ', ['ltalter', T('q@H@'), B], ' ', A], 'HIDDEN', Lh, None),
+        ('vphantom', ['cat', A, ['vphantom', T('@H@')], B], 'HIDDEN', Lh, None),
+        ('href_url', ['cat', A, ' ', ['href', 'u@H@', B], ' ', A], 'HIDDEN', Lh, None),
+        ('color_name', ['cat', A, ' ', ['passthru', 'textcolor', B, '{r@H@}'], ' ', A], 'HIDDEN', Lh, None),
+        ('heading_short', ['cat', ['heading', A, 'section', '', T('s@H@')], '\n', B], 'HIDDEN', Lh, None),
+        ('comment', ['cat', A, ' ', ['comment', '@H@'], B], 'COMMENT', Lh, (1, 2)),
+        ('skip_body', ['cat', A, '\n', ['skip_region', 'q@H@'], B], 'NAME', Lh, None),
+        ('tikz_body', ['cat', A, '\n', ['removed_env', 'tikzpicture', '(0,0) @H@ (1,1);'], '\n', B],
+         'NAME', Lh, None),
+        ('math_body', ['cat', A, ' ', ['inline_math', 'x@H@'], ' ', B], 'MATH', Lh, None),
+        ('word_unknown_arg', ['cat', A, ' ', ['unknown', 'zzfoo', T('x@H@')], ' ', B], 'WORD', Lh, None),
+        ('word_passthru', ['cat', A, ' ', ['passthru', 'framebox', T('@H@x'), '[3cm][l]'], ' ', B], 'WORD', Lh, None),
+        ('word_caption', ['cat', A, ['footnote', T('c@H@'), 'caption', 'sh'], ' ', B], 'WORD', Lh, None),
+        ('word_item', ['cat', ['items', 'enumerate', [[None, T('@H@')], [None, B]]], ' ', A], 'WORD', Lh, None),
+        ('word_theorem', ['cat', ['theorem', ['cat', '\n', T('t@H@'), '\n'], 'thm', 'Theorem', T('N@H@')], ' ', B]
+         if False else ['cat', ['theorem', ['cat', '\n', T('t@H@'), '\n']], ' ', B], 'WORD', Lh, None),
+        ('word_tabular', ['cat', ['G', '\\begin{tabular}{ll}', None], T('a@H@'), ' ', ['special', '&'], ' ', B,
+                          ['G', '\\end{tabular}', None]], 'WORD', Lh, None),
+    ]
+    out = [sk.item('sk:' + n, ['cat', family.PREAMBLE, sp], c, L, 'C03', cost=5, lmin=0, win=w)
+           for n, sp, c, L, w in S]
+    out.append(sk.item('sk:twin', ['cat', A, ' ', ['unknown', 'zzfoo', T('x@H@')], ' ', B], 'WORD', 1,
+                       'C03', twin=True))
+    return out
+
+
 def items(tier, seed):
     tw = {'h': 'fam', 'name': 'twin', 'spec': family.doc(family.ATOMS[0]), 'tag': 'C03',
           'twin': True}
-    return fc.items(tier, seed, 'C03', [tw])
+    return fc.items(tier, seed, 'C03', [tw]) + sketches(tier)
 
 
-run_item = fc.run_item
-replay = fc.replay
+def run_item(item):
+    return (sk if item['h'] == 'sk' else fc).run_item(item)
+
+
+def replay(rep):
+    return (sk if rep['item']['h'] == 'sk' else fc).replay(rep)
